@@ -223,9 +223,11 @@ def ops_unary(ir, fr, xc):
                     return x
                 out.append((f"fill_missing({method}) {form}", impl, (lambda method=method: fill_oracle(method)), True))
     # --- the number of periods may be any integer type (numpy integers come out of every index computation)
-    for k, form in ((np.int64(-1), "method"), (np.int32(2), "function"), (np.int64(-2), "diff")):
+    for k, form in ((np.int64(-1), "method"), (np.int32(2), "function"), (np.int64(-2), "diff"), (np.int64(-1), "index"), (np.int32(1), "index")):
         def impl(k=k, form=form):
             x = X()
+            if form == "index":
+                return x[k]
             if form == "method":
                 x.shift(k)
                 return x
